@@ -786,51 +786,19 @@ Lemma ulines_complete U V : complete U -> ~ In 13%N U ->
 Proof. intros Hc Hr. destruct (ulines_complete_n (length U) U V (le_n _) Hc Hr) as (H1 & H2 & _). auto. Qed.
 
 
-(** the split with bufio's token limit agrees with the unlimited one on short complete text *)
-Lemma lines_acc_line a : forall r cur cnt, ~ In 10%N a -> (cnt + N.of_nat (length a) <= MAX_LINE)%N ->
-  lines_acc (a ++ 10%N :: r) cur cnt = drop_cr (rev cur ++ a) :: lines_acc r [] 0.
+(** [lines] on complete text followed by anything; a line followed by a newline *)
+Lemma lines_short U V : complete U -> ~ In 13%N U -> lines (U ++ V) = ulines U ++ lines V.
+Proof. intros Hc Hr. unfold lines. destruct (ulines_complete U V Hc Hr) as [H _]. exact H. Qed.
+Lemma lines_cons a r : ~ In 10%N a -> ~ In 13%N a -> lines (a ++ 10%N :: r) = a :: lines r.
 Proof.
-  induction a as [|x a IH]; intros r cur cnt H Hb.
-  - simpl. rewrite app_nil_r. reflexivity.
-  - cbn [app lines_acc]. destruct (N.eqb x 10) eqn:E; [apply N.eqb_eq in E; subst; exfalso; apply H; left; reflexivity|].
-    assert ((MAX_LINE <=? cnt)%N = false) as ->.
-    { apply N.leb_gt. cbn [length] in Hb. lia. }
-    rewrite IH; [|intros Hin; apply H; right; exact Hin|cbn [length] in Hb; lia].
-    simpl. rewrite <- app_assoc. reflexivity.
-Qed.
-
-Lemma lines_short_n n : forall U V, (length U <= n)%nat -> complete U -> ~ In 13%N U -> short U = true ->
-  lines (U ++ V) = ulines U ++ lines V.
-Proof.
-  induction n as [|n IH]; intros U V Hl Hc Hcr Hs.
-  - destruct U; [reflexivity|simpl in Hl; lia].
-  - destruct U as [|x U0] eqn:EU; [reflexivity|]. rewrite <- EU in *.
-    destruct (complete_split U Hc) as (a & r & E & Ha & Hcr' & Hlen); [rewrite EU; discriminate|].
-    assert (Hcra : ~ In 13%N a) by (intros H; apply Hcr; rewrite E; apply in_or_app; left; exact H).
-    assert (Hcrr : ~ In 13%N r) by (intros H; apply Hcr; rewrite E; apply in_or_app; right; right; exact H).
-    assert (Hu : ulines U = a :: ulines r).
-    { rewrite E. unfold ulines. rewrite ulines_acc_line by exact Ha. cbn [rev app]. rewrite drop_cr_id by exact Hcra. reflexivity. }
-    unfold short in Hs. rewrite Hu in Hs. cbn [forallb] in Hs. apply andb_true_iff in Hs as [Hsa Hsr].
-    apply N.leb_le in Hsa.
-    rewrite Hu. rewrite E. rewrite <- app_assoc. cbn [app]. unfold lines at 1.
-    rewrite lines_acc_line; [|exact Ha|lia]. cbn [rev app]. rewrite drop_cr_id by exact Hcra.
-    fold (lines (r ++ V)). rewrite (IH r V); [reflexivity|lia|exact Hcr'|exact Hcrr|exact Hsr].
-Qed.
-Lemma lines_short U V : complete U -> ~ In 13%N U -> short U = true -> lines (U ++ V) = ulines U ++ lines V.
-Proof. intros. eapply lines_short_n; eauto. Qed.
-
-(** a short line followed by a newline *)
-Lemma lines_cons a r : ~ In 10%N a -> ~ In 13%N a -> (N.of_nat (length a) <= MAX_LINE)%N ->
-  lines (a ++ 10%N :: r) = a :: lines r.
-Proof.
-  intros Ha Hr Hb. unfold lines. rewrite lines_acc_line by (auto; lia). cbn [rev app].
+  intros Ha Hr. unfold lines, ulines. rewrite ulines_acc_line by exact Ha. cbn [rev app].
   rewrite drop_cr_id by exact Hr. reflexivity.
 Qed.
 
 (** no line of the up section is taken for a pragma, no carriage return *)
 Definition dbmate_line_ok (l : bytes) : bool := negb (has_prefix l S_DBMATE) && negb (re_dbmate_pragma l).
 Definition dbmate_ok (U : bytes) : bool :=
-  forallb dbmate_line_ok (ulines U) && negb (existsb (N.eqb 13) U) && short U.
+  forallb dbmate_line_ok (ulines U) && negb (existsb (N.eqb 13) U).
 
 Lemma dbmate_loop_good : forall ls acc rest, forallb dbmate_line_ok ls = true ->
   dbmate_loop (ls ++ rest) true acc = dbmate_loop rest true (rev ls ++ acc).
@@ -845,7 +813,7 @@ Qed.
 Theorem dbmate_text_up U D : complete U -> dbmate_ok U = true ->
   dbmate_text (S_DBMATE_UP ++ U ++ S_DBMATE_DOWN ++ D) = U.
 Proof.
-  intros Hc Hok. unfold dbmate_ok in Hok. apply andb_true_iff in Hok as [Hok Hsh]. apply andb_true_iff in Hok as [Hl Hcr].
+  intros Hc Hok. unfold dbmate_ok in Hok. apply andb_true_iff in Hok as [Hl Hcr].
   assert (Hcr' : ~ In 13%N U).
   { rewrite negb_true_iff in Hcr. intros Hin. assert (existsb (N.eqb 13) U = true); [|congruence].
     apply existsb_exists. exists 13%N. split; [exact Hin|reflexivity]. }
@@ -857,7 +825,7 @@ Proof.
       with ((S_DBMATE ++ S_up) ++ 10%N :: (U ++ ([] ++ 10%N :: ((S_DBMATE ++ S_down) ++ 10%N :: D))))
       by (unfold S_up, S_down; repeat (rewrite <- app_assoc; simpl); reflexivity).
     rewrite lines_cons by (vm_compute; intuition discriminate).
-    rewrite (lines_short U _ Hc Hcr' Hsh).
+    rewrite (lines_short U _ Hc Hcr').
     rewrite lines_cons by (vm_compute; intuition discriminate).
     rewrite lines_cons by (vm_compute; intuition discriminate).
     reflexivity. }
@@ -891,44 +859,42 @@ Proof.
   exact (tool_up_roundtrip p Hall).
 Qed.
 
-(** * bufio.Scanner's token limit: a line of more than MAX_LINE bytes ends the split *)
-Lemma lines_acc_long a : forall r cur cnt, ~ In 10%N a ->
-  (MAX_LINE + 1 <= cnt + N.of_nat (length a))%N -> (cnt <= MAX_LINE)%N ->
-  lines_acc (a ++ r) cur cnt = [].
+(** * after fix C07-sqltool-scanner-buffer a line of any length is read: the positive statement
+    replacing the refutation (for every [long] without newline / carriage return that is not
+    itself taken for a pragma) *)
+Theorem long_line_repaired : forall long,
+  ~ In 10%N long -> ~ In 13%N long -> dbmate_line_ok long = true ->
+  let up := [83;69;76;69;67;84;32;49;59;10]%N ++ long ++ [10;83;69;76;69;67;84;32;50;59;10]%N in
+  dbmate_text (S_DBMATE_UP ++ up ++ S_DBMATE_DOWN) = up.
 Proof.
-  induction a as [|x a IH]; intros r cur cnt H Hb Hc.
-  - cbn [length] in Hb. lia.
-  - cbn [app lines_acc]. destruct (N.eqb x 10) eqn:E; [apply N.eqb_eq in E; subst; exfalso; apply H; left; reflexivity|].
-    destruct (MAX_LINE <=? cnt)%N eqn:El; [reflexivity|]. apply N.leb_gt in El.
-    apply IH; [intros Hin; apply H; right; exact Hin|cbn [length] in Hb; lia|lia].
+  intros long Hn Hr Hok up.
+  replace (S_DBMATE_UP ++ up ++ S_DBMATE_DOWN) with (S_DBMATE_UP ++ up ++ S_DBMATE_DOWN ++ []) by (rewrite app_nil_r; reflexivity).
+  apply dbmate_text_up.
+  - right. exists ([83;69;76;69;67;84;32;49;59;10]%N ++ long ++ [10;83;69;76;69;67;84;32;50;59]%N).
+    unfold up. repeat rewrite <- app_assoc. reflexivity.
+  - unfold dbmate_ok. apply andb_true_iff. split.
+    + unfold up.
+      replace ([83;69;76;69;67;84;32;49;59;10]%N ++ long ++ [10;83;69;76;69;67;84;32;50;59;10]%N)
+        with ([83;69;76;69;67;84;32;49;59]%N ++ 10%N :: (long ++ 10%N :: ([83;69;76;69;67;84;32;50;59]%N ++ 10%N :: [])))
+        by (repeat (rewrite <- app_assoc; simpl); reflexivity).
+      unfold ulines. rewrite ulines_acc_line by (vm_compute; intuition discriminate).
+      rewrite ulines_acc_line by exact Hn. rewrite ulines_acc_line by (vm_compute; intuition discriminate).
+      cbn [rev app ulines_acc]. rewrite (drop_cr_id long Hr).
+      cbn [forallb]. rewrite Hok. vm_compute. reflexivity.
+    + rewrite negb_true_iff. destruct (existsb (N.eqb 13) up) eqn:E; [|reflexivity].
+      apply existsb_exists in E as (x & Hin & Hx). apply N.eqb_eq in Hx. subst x. unfold up in Hin.
+      apply in_app_or in Hin as [Hin|Hin]; [revert Hin; vm_compute; intuition discriminate|].
+      apply in_app_or in Hin as [Hin|Hin]; [exfalso; exact (Hr Hin)|revert Hin; vm_compute; intuition discriminate].
 Qed.
 
-(** the DBMate and Goose readers lose every statement from a too-long line on *)
-Theorem long_line_refuted : forall long,
-  ~ In 10%N long -> (MAX_LINE + 1 <= N.of_nat (length long))%N ->
-  let up := [83;69;76;69;67;84;32;49;59;10]%N ++ long ++ [10;83;69;76;69;67;84;32;50;59;10]%N in  (* "SELECT 1;\n" long "\nSELECT 2;\n" *)
-  dbmate_text (S_DBMATE_UP ++ up ++ S_DBMATE_DOWN) = [83;69;76;69;67;84;32;49;59]%N
-  /\ goose_text (S_GOOSE_UP ++ up ++ S_GOOSE_DOWN)
-     = Some (join S_NL [S_DELIM_DIRECTIVE ++ GOOSE_DELIM; []; [83;69;76;69;67;84;32;49;59]%N; GOOSE_DELIM]).
+(** the repaired pragma patterns only match lines that start with the pragma prefix *)
+Lemma has_prefix_app_l s a b : has_prefix s (a ++ b) = true -> has_prefix s a = true.
+Proof. intros H. apply has_prefix_app in H as [r ->]. rewrite <- app_assoc. apply has_prefix_app. eexists; reflexivity. Qed.
+Lemma pragma_anchored line :
+  (re_goose_pragma line = true -> has_prefix line S_GOOSE = true)
+  /\ (re_dbmate_pragma line = true -> has_prefix line S_DBMATE = true).
 Proof.
-  intros long Hn Hl up.
-  assert (Ed : lines (S_DBMATE_UP ++ up ++ S_DBMATE_DOWN) = [S_DBMATE ++ S_up; [83;69;76;69;67;84;32;49;59]%N]).
-  { unfold up, S_DBMATE_UP.
-    replace ((S_DBMATE ++ [117; 112; 10]%N) ++ ([83;69;76;69;67;84;32;49;59;10]%N ++ long ++ [10;83;69;76;69;67;84;32;50;59;10]%N) ++ S_DBMATE_DOWN)
-      with ((S_DBMATE ++ S_up) ++ 10%N :: ([83;69;76;69;67;84;32;49;59]%N ++ 10%N :: (long ++ ([10;83;69;76;69;67;84;32;50;59;10]%N ++ S_DBMATE_DOWN))))
-      by (unfold S_up; repeat (rewrite <- app_assoc; simpl); reflexivity).
-    rewrite lines_cons by (vm_compute; intuition discriminate).
-    rewrite lines_cons by (vm_compute; intuition discriminate).
-    unfold lines. rewrite lines_acc_long; [reflexivity|exact Hn|lia|vm_compute; discriminate]. }
-  assert (Eg : lines (S_GOOSE_UP ++ up ++ S_GOOSE_DOWN) = [S_GOOSE ++ [32;85;112]%N; [83;69;76;69;67;84;32;49;59]%N]).
-  { unfold up, S_GOOSE_UP.
-    replace ((S_GOOSE ++ [32; 85; 112; 10]%N) ++ ([83;69;76;69;67;84;32;49;59;10]%N ++ long ++ [10;83;69;76;69;67;84;32;50;59;10]%N) ++ S_GOOSE_DOWN)
-      with ((S_GOOSE ++ [32;85;112]%N) ++ 10%N :: ([83;69;76;69;67;84;32;49;59]%N ++ 10%N :: (long ++ ([10;83;69;76;69;67;84;32;50;59;10]%N ++ S_GOOSE_DOWN))))
-      by (repeat (rewrite <- app_assoc; simpl); reflexivity).
-    rewrite lines_cons by (vm_compute; intuition discriminate).
-    rewrite lines_cons by (vm_compute; intuition discriminate).
-    unfold lines. rewrite lines_acc_long; [reflexivity|exact Hn|lia|vm_compute; discriminate]. }
-  split.
-  - unfold dbmate_text. rewrite Ed. reflexivity.
-  - unfold goose_text. rewrite Eg. reflexivity.
+  split; intros H.
+  - unfold re_goose_pragma in H. repeat (apply orb_true_iff in H as [H|H]); eapply has_prefix_app_l; exact H.
+  - unfold re_dbmate_pragma in H. apply orb_true_iff in H as [H|H]; eapply has_prefix_app_l; exact H.
 Qed.
